@@ -1836,6 +1836,12 @@ func requiredLandmarkAlternativeMatch(input []rune, start, endAt int, alt syntax
 	for matchStart > 0 && alt.LeadingWhitespaceSet != nil && alt.LeadingWhitespaceSet.CharIn(input[matchStart-1]) {
 		matchStart--
 	}
+	if len(alt.Literal) == 0 {
+		// A set landmark may be matched by as few as MinRepeat characters, so the next landmark can
+		// begin right after those: chaining from the end of the longest run would skip it
+		// (e.g. [ac]*[ab]{1,2}a on "aa").
+		end = start + alt.MinRepeat
+	}
 	return requiredLandmarkMatch{Start: matchStart, CoreStart: start, End: end}, true
 }
 
